@@ -155,6 +155,12 @@ var blsKeys = func() []common.BLSPubkey {
 		}
 		out[i] = pk.Serialize()
 	}
+	// two entries that are not keys at all (the cache takes any 48 bytes and decompresses lazily):
+	// bytes that are no compressed point, and a key with its last byte changed
+	for j := range out[3] {
+		out[3][j] = 0xff
+	}
+	out[9][47] ^= 0x01
 	return out
 }()
 
